@@ -221,7 +221,9 @@ def glue(chk, cfg):
         if len(r) == 1 and not r[0].guards and r[0].ret[0] == "call" and "std::iter::Iterator>::chain" in r[0].ret[1]:
             a0, a1 = r[0].ret[2][0], r[0].ret[2][1]
             ITERFN = r"^seq::slice::SeqSlice::<A>::iter$"   # iter() is into_iter() (row above)
-            ok = a0[0] == "call" and (re.match(INTO, a0[1]) or re.match(ITERFN, a0[1])) and a0[2] == (P(1),) and a1 == P(2)
+            it_of = lambda t, q: isinstance(t, tuple) and t[0] == "call" and (re.match(INTO, t[1]) or re.match(ITERFN, t[1])) and t[2] == (q,)
+            # Iterator::chain takes IntoIterator: `second` and `second.iter()` are the same argument
+            ok = it_of(a0, P(1)) and (a1 == P(2) or it_of(a1, P(2)))
         chk.ob("S-glue", "SeqSlice::chain", ok, "chain must be into_iter(self).chain(second): " + (show(r[0].ret) if r else "?"), b["span"])
     b = an.one(chk, "S-glue", cfg.bio, "FromIterator<&SeqSlice> for Vec<Seq>", name="from_iter", trait="std::iter::FromIterator",
                self_re=r"^std::vec::Vec<seq::Seq<A>>$")
